@@ -586,6 +586,11 @@ impl Process {
                 self.pending_signals.remove(stop).ok();
             }
         }
+        if [signal::SIGSTOP, signal::SIGTSTP, signal::SIGTTIN, signal::SIGTTOU].contains(&signal) {
+            // Conversely, a stop signal discards a SIGCONT that has not been
+            // delivered yet.
+            self.pending_signals.remove(signal::SIGCONT).ok();
+        }
 
         let mut result = if signal != signal::SIGKILL
             && signal != signal::SIGSTOP
